@@ -494,6 +494,28 @@ func observeInvalid(c *Case, cov *Cov) []*Violation {
 		add("progress", "the resume loop does not terminate on a stream with a damaged dump")
 		return vs
 	}
+	if inv.NoSnapshot {
+		// the call that fails is the one whose remainder starts at the stop line;
+		// exactly dj snapshots precede it and none is produced for the damaged dump
+		n := 0
+		for i, cr := range calls {
+			if cr.Snap != nil {
+				n++
+				continue
+			}
+			if strings.HasPrefix(ErrKey(cr.Err), "err:") {
+				if n != dj {
+					add("count", fmt.Sprintf("%s: %d snapshots before the rejected report, expected %d", inv.Kind, n, dj))
+				}
+				if !bytes.Equal(rems[i], b[bad:]) {
+					add("stops-at-invalid", fmt.Sprintf("%s: the call that rejects the report must hand back the stream from the line %s (offset %d); remainder ++ unread is %s", inv.Kind, Clip(s.Text(li), 60), bad, Clip(rems[i], 80)))
+				}
+				return vs
+			}
+		}
+		add("stops-at-invalid", fmt.Sprintf("%s: no call reported a parse error for the line %s", inv.Kind, Clip(s.Text(li), 60)))
+		return vs
+	}
 	// the (dj+1)-th snapshot belongs to the damaged dump
 	n := 0
 	for i, cr := range calls {
